@@ -211,6 +211,36 @@ def judge_forms(f):
     return forms.judge(kcall, cols, tuple(f), what="CphotAng.__call__")
 
 
+LIFE_ALTS = (525.0, 33.0, 400.0)
+LIFE_EVENTS = [(5.0, 0.0, 1.0), (20.0, 2.0, 100.0), (0.5, 8.0, 1.0)]
+
+
+def judge_lifecycle(a1, a2, how):
+    """a kernel built for altitude a1, moved to a2 by assigning its public detector_altitude, then (how) used directly /
+    deep-copied / pickled and restored: every event as a kernel freshly built for a2 gives it, bit for bit"""
+    import copy
+    import pickle
+
+    import nuspacesim.simulation.eas_optical.cphotang as cp
+
+    k = cp.CphotAng(a1)
+    k.detector_altitude = a2
+    if how == "deepcopy":
+        k = copy.deepcopy(k)
+    elif how == "pickle":
+        k = pickle.loads(pickle.dumps(k))
+    fresh = cp.CphotAng(a2)
+    out = []
+    for bd, a, E in LIFE_EVENTS:
+        with np.errstate(all="ignore"):
+            r = k.run(np.float64(math.radians(bd)), np.float64(a), np.float64(E), 0.0, 0.0, None)
+            f = fresh.run(np.float64(math.radians(bd)), np.float64(a), np.float64(E), 0.0, 0.0, None)
+        if (np.float64(r[0]).tobytes(), np.float32(r[1]).tobytes()) != (np.float64(f[0]).tobytes(), np.float32(f[1]).tobytes()):
+            out.append(("reconfigured_kernel_equals_fresh_kernel", [float(f[0]), float(f[1])], [float(r[0]), float(r[1])]))
+            break
+    return out
+
+
 def run(ctx):
     from .. import forms as _forms
 
@@ -279,6 +309,12 @@ def run(ctx):
                     ctx.tick(1, ("lowbeta_det", h))
                     if (np.float64(r[0]).tobytes(), np.float32(r[1]).tobytes()) != (np.float64(ref[0]).tobytes(), np.float32(ref[1]).tobytes()):
                         ctx.violation("below_1_deg_treated_as_1_deg", {"kind": "lowbeta_det", "h": h, "ev": [b, a, E]}, [float(ref[0]), float(ref[1])], [float(r[0]), float(r[1])])
+    # object life cycle: every ordered pair of altitudes x {used directly, deep-copied, pickled and restored}
+    for a1, a2 in itertools.product(LIFE_ALTS, repeat=2):
+        for how in ("direct", "deepcopy", "pickle"):
+            ctx.tick(len(LIFE_EVENTS), ("lifecycle", a1 == a2, a1 == 525.0, a2 == 525.0, how))
+            for c, e, o in judge_lifecycle(a1, a2, how):
+                ctx.violation(c, {"kind": "lifecycle", "a1": a1, "a2": a2, "how": how}, e, o)
     # event by event also through the batch entry point (more than one 100-event partition, unsorted order)
     for c, e, o in judge_batch_call():
         ctx.violation(c, {"kind": "batch"}, e, o)
@@ -334,6 +370,8 @@ def replay(case):
         return [] if med <= 0.005 else [("density_median_within_0.5_percent", "<= 0.005", med)]
     if k == "zsteps":
         return zsteps_conformance()[0]
+    if k == "lifecycle":
+        return judge_lifecycle(case["a1"], case["a2"], case["how"])
     if k == "batch":
         return judge_batch_call()
     return []
